@@ -82,7 +82,10 @@ def run(ctx):
 
 
 # sensitivity pack (thorough tier): each seeded edit must be reported by the named rule instance
-MUTANTS = [{'name': 'overflow-mask-widened', 'file': 'crates/ordinals/src/varint.rs', 'old': 'value & 0b0111_1100 != 0', 'new': 'value & 0b0111_1000 != 0', 'expect': ('R26.1', 'varint::decode', 'shl-lossy')},
+MUTANTS = [
+  {'name': 'seeded-C26-a', 'patch': 'C26-a/patch.diff', 'expect': ('R26.1', 'varint::decode', '')},
+  {'name': 'seeded-C26-b', 'patch': 'C26-b/patch.diff', 'expect': ('R26.1', 'varint::decode', '')},
+{'name': 'overflow-mask-widened', 'file': 'crates/ordinals/src/varint.rs', 'old': 'value & 0b0111_1100 != 0', 'new': 'value & 0b0111_1000 != 0', 'expect': ('R26.1', 'varint::decode', 'shl-lossy')},
            {'name': 'continuation-bit-dropped', 'file': 'crates/ordinals/src/varint.rs', 'old': 'v.push(n.to_le_bytes()[0] | 0b1000_0000);', 'new': 'v.push(n.to_le_bytes()[0] | 0b0100_0000);', 'expect': ('R26.2', 'encode_to_vec', 'continuation bit')}]
 
 
